@@ -179,6 +179,8 @@ func (c *Ctx) WhoWrites(tf string, allowed map[string]string, why string) {
 		seen[name] = true
 		if reason, ok := allowed[name]; ok {
 			c.OK("K3", name, "may store "+tf, c.At(r.Instr), reason)
+		} else if reason, ok := allowedPrefix(allowed, name); ok {
+			c.OK("K3", name, "may store "+tf, c.At(r.Instr), reason)
 		} else {
 			c.Fail("K3", name, "may store "+tf, c.At(r.Instr), "writer is not in the frozen who-may table ("+why+")")
 		}
